@@ -8,7 +8,7 @@ claim("C03", "DESIGN.md 3/C03",
       "region abstraction: one representative per order region of every comparison; trusts refmodel/qc.py",
       TECH_TREE)
 claim("C08", "DESIGN.md 3/C08",
-      "every member list of length<=2 over an 81-member menu (9 time kinds x 3 depth spans x 3 value-span sets, reversed spellings) [thorough: + length 3 over a 12-member sub-menu] is run on a 3332-point product series of calendar-edge instants x values x depths (3 orders, all-depth-missing, zinp=None) and on all short sequences; each point compared with a scalar reference using python's datetime calendar",
+      "every member list of length<=1 and a third (thorough: all) of the length-2 lists over a 135-member menu (9 time kinds x 3 depth spans x 5 value-span sets incl. fail span inside / overlapping the valid span, reversed spellings) [thorough: + length 3 over a 12-member sub-menu] is run on a 3332-point product series of calendar-edge instants x values x depths (3 orders, all-depth-missing, zinp=None) and on all short sequences; each point compared with a scalar reference using python's datetime calendar",
       "trusts python datetime (ISO week, day of year), refmodel/qc.py; absolute spans limited to two; <=3 members",
       TECH_TREE)
 claim("C10", "DESIGN.md 3/C10",
@@ -24,7 +24,7 @@ claim("C12", "DESIGN.md 3/C12",
       "std within 1e-9 of a threshold skipped (statement excludes it); range windows holding a missing value accept UNKNOWN too",
       TECH_TREE)
 claim("C13", "DESIGN.md 3/C13",
-      "every density series of length 1..4 (thorough 5) x every depth profile from steps {+1,0,-1} x 25 threshold pairs (+ every placement of 1-2 missing depths x 9 pairs) for density_inversion_test, and every pressure series of length 0..6 (thorough 8) over 4 levels, compared per point with the scalar reference; profile and reversed profile are both in the space (mirror relation)",
+      "every density series of length 1..4 (thorough 5) x every depth profile from steps {+1,0,-1} x 36 threshold pairs incl. 0 (+ every placement of 1-2 missing depths) for density_inversion_test, and every pressure series of length 0..6 (thorough 8) over 4 levels, compared per point with the scalar reference; profile and reversed profile are both in the space (mirror relation)",
       "zero-mean pressure profiles and NaN pressures not judged; trusts refmodel/qc.py",
       TECH_TREE)
 claim("C14", "DESIGN.md 3/C14",
@@ -36,7 +36,7 @@ claim("C04", "DESIGN.md 3/C04",
       "vectors of length<=2 (thorough 3), <=3 (thorough 4) vectors; trusts refmodel/qc.py aggregate()",
       TECH_GRAPH)
 claim("C01", "DESIGN.md 3/C01",
-      "prefix tree: 11 functions x 38 parameter sets x every series of length 0..5 (thorough 7) as ndarray and list (None/NaN), each executed twice on the same argument objects (no exception, one valid unmasked flag per element, shape, arguments byte-identical, repeat identical); event graph: every call history of depth<=3 (thorough 4) over 14 operations sharing the same argument objects - results and module state must be history independent",
+      "prefix tree: 11 functions x 38 parameter sets x every series of length 0..5 (thorough 7) as ndarray and of length 0..4 as list (None/NaN) and masked arrays, each executed twice on the same argument objects with a call on another same-length series in between (no exception, one valid unmasked flag per element, shape, arguments byte-identical, repeat identical, returned array not modified later); event graph: every call history of depth<=3 (thorough 4) over 18 operations sharing the same argument objects (two input sets), every history started from freshly loaded modules - results and module state must be history independent",
       "does not judge which flag; 1-D inputs; None markers via list carriers only",
       TECH_TREE + "; " + TECH_GRAPH)
 claim("C02", "DESIGN.md 3/C02",
@@ -44,7 +44,7 @@ claim("C02", "DESIGN.md 3/C02",
       "does not judge which of GOOD/SUSPECT/FAIL; 'undefined irrespective of the value' is decided by the scalar reference",
       TECH_TREE)
 claim("C15", "DESIGN.md 3/C15",
-      "for each of the 11 tests every logical series of length 0..3 (thorough 4) over {1,3,missing} is run with canonical carriers and with each of 17 data/aux carriers and 17 time carriers substituted one input at a time (and every data x time carrier pair for length<=2, spans as tuples); flags must equal the canonical ones",
+      "for each of the 11 tests every logical series of length 0..3 (thorough 4) over {1,3,missing} is run with canonical carriers and with each of 18 data/aux carriers and 17 time carriers substituted one input at a time (and every data x time carrier pair for length<=2, spans as tuples); flags must equal the canonical ones",
       "differential oracle (no reference model); integer carriers only without missing values; epoch seconds inside a pandas Series not judged",
       TECH_TREE)
 claim("C16", "DESIGN.md 3/C16",
